@@ -220,7 +220,7 @@ func (exec *Executor) execMethodInteger(
 	case int64:
 		integer = val
 	case float64:
-		integer = int64(math.Round(val))
+		integer = floatToInt64(math.Round(val))
 	case json.Number:
 		integer, err = val.Int64()
 		if err != nil {
